@@ -12,6 +12,8 @@ from fractions import Fraction
 
 ACCOUNTS = ["a", "b", "c", "d"]
 DESTS = ["x", "y", "z", "a", "b"]
+KEYWORD_NAMES = ["remaining", "kept", "max", "to", "from", "source", "destination", "send", "save", "vars", "world", "allowing",
+                 "unbounded", "overdraft", "up", "portion", "monetary", "account", "asset", "number", "string", "balance", "meta"]
 ASSETS = ["USD", "EUR/2"]
 # strings that output layers (printf, JSON/HTML escaping) treat specially; none contains a quote, a backslash or a newline
 META_STRINGS = [x for x in tricky.STRINGS if '"' not in x and "\\" not in x and "\n" not in x]
@@ -45,6 +47,13 @@ class Ctx:
 
     def fresh(self, prefix):
         self.n += 1
+        if self.rng.random() < self.p.get("keyword_names", 0.08):
+            # a variable may be called like a keyword, a type or a built-in: `$remaining`, `$kept`, `$max`, `$world`…
+            used = {n for (_, n, _) in self.decls}
+            pool = [k for k in KEYWORD_NAMES if k not in used]
+            if pool:
+                self.features.add("keyword-like-variable-name")
+                return self.rng.choice(pool)
         return "%s_%s" % (prefix, "abcdefghijklmnopqrstuvwxyz"[self.n % 26] * (1 + self.n // 26))
 
     def chance(self, key, default=0.0):
@@ -177,7 +186,18 @@ def portion_literal_text(ctx, q):
                 s = str(scaled.numerator).rjust(digits + 1, "0")
                 forms.append("%s.%s%%" % (s[:-digits], s[-digits:]))
                 break
-    return r.choice(forms)
+    choice = r.choice(forms)
+    if r.random() < 0.12:
+        # the same value written with many digits: trailing zeros after the decimal point of a percentage (the
+        # denominator 10^(2+digits) crosses 2^63/2^64 at 17–18 digits), or a ratio scaled by a power of ten / two
+        z = r.choice([15, 16, 17, 18, 19, 20, 21, 25])
+        if pct.denominator == 1 and r.random() < 0.6:
+            choice = "%d.%s%%" % (pct.numerator, "0" * z)
+        else:
+            m = r.choice([10 ** z, 2 ** 63, 2 ** 64, 2 ** 64 + 1])
+            choice = "%d/%d" % (q.numerator * m, q.denominator * m)
+        ctx.features.add("portion-many-digits")
+    return choice
 
 
 def gen_portions(ctx, k):
@@ -534,6 +554,12 @@ def gen_case(seed, index, profile=None):
         import re as _re
         if _re.fullmatch(r"[a-zA-Z0-9_-]+(:[a-zA-Z0-9_-]+)*", stored):
             ctx.meta_account_var = (nm, stored)
+            if rng.random() < 0.6:
+                # the same entry read a second time under another declared type (its text is valid for both)
+                sn = ctx.fresh("str")
+                ctx.decls.append(("string", sn, 'meta(@%s, "acct")' % a))
+                ctx.meta_same_entry_string = (sn, stored)
+                ctx.features.add("origin-meta-same-entry-two-types")
         else:
             ctx.meta_account_bad = (a, stored)
             ctx.features.add("origin-meta-account-invalid")
@@ -561,6 +587,9 @@ def gen_case(seed, index, profile=None):
         nm, stored = ctx.meta_account_var
         extra.append(("send [USD 2] (\n  source = @world\n  destination = $%s\n)" % nm,
                       ('send', 'USD', 2, ('acct', 'world', 0), ('acct', stored))))
+    if getattr(ctx, "meta_same_entry_string", None):
+        sn, stored = ctx.meta_same_entry_string
+        extra.append(('set_tx_meta("same_entry", $%s)' % sn, ('txmeta', "same_entry", ('string', stored))))
     stmts = extra + stmts if rng.random() < 0.5 else stmts + extra
 
     vars_block = ""
@@ -618,6 +647,56 @@ def gen_case(seed, index, profile=None):
         "stmt_texts": [t for t, _ in stmts],
         "has_origins": any(o for _, _, o in ctx.decls),
     }
+    if p.get("lookalike_names") and rng.random() < p["lookalike_names"] and not ctx.meta:
+        return rename_lookalike(case, gen)
+    return case, gen
+
+
+LOOKALIKE_ACCOUNTS = {"a": "v", "b": "vU", "c": "vUS", "d": "v:U", "x": "x"}
+LOOKALIKE_ASSETS = {"USD": "USD", "COIN": "SD", "EUR/2": "D"}
+
+
+def rename_lookalike(case, gen):
+    """the same case under names whose concatenations coincide: (v, USD), (vU, SD) and (vUS, D) all spell `vUSD`"""
+    import re
+    am, sm = LOOKALIKE_ACCOUNTS, LOOKALIKE_ASSETS
+
+    def txt(t):
+        t = re.sub(r"@(a|b|c|d|x)(?![a-zA-Z0-9_:-])", lambda m: "@" + am[m.group(1)], t)
+        return re.sub(r"(?<![A-Z/0-9$a-z_@\"])(USD|EUR/2|COIN)(?![A-Z/0-9])", lambda m: sm[m.group(1)], t)
+
+    def val(v):
+        if v in am:
+            return am[v]
+        if v in sm:
+            return sm[v]
+        m = re.fullmatch(r"(USD|EUR/2|COIN) (-?\d+)", v)
+        if m:
+            return sm[m.group(1)] + " " + m.group(2)
+        return v
+
+    def tup(x):
+        if isinstance(x, tuple):
+            return tuple(tup(y) for y in x)
+        if isinstance(x, list):
+            return [tup(y) for y in x]
+        if isinstance(x, str):
+            return val(x)
+        return x
+    case = dict(case)
+    case["script"] = txt(case["script"])
+    case["vars"] = {k: val(v) for k, v in case["vars"].items()}
+    case["balances"] = {am.get(a, a): {sm.get(c, c): v for c, v in m.items()} for a, m in case["balances"].items()}
+    case["meta"] = {am.get(a, a): {k: val(v) for k, v in m.items()} for a, m in case["meta"].items()}
+    if case.get("nilBalances"):
+        case["nilBalances"] = {am.get(a, a): [sm.get(c, c) for c in cs] for a, cs in case["nilBalances"].items()}
+    gen = dict(gen)
+    gen["stmts"] = tup(gen["stmts"])
+    gen["stmt_texts"] = [txt(t) for t in gen["stmt_texts"]]
+    gen["vars_block"] = txt(gen["vars_block"])
+    if gen.get("var_error"):
+        gen["var_error"] = (gen["var_error"][0], [val(x) for x in gen["var_error"][1]])
+    gen["features"] = sorted(set(gen["features"]) | {"look-alike-names"})
     return case, gen
 
 
